@@ -738,6 +738,20 @@ def r07_6(ctx):
     ctx.floor("R07.6", 1)
 
 
+def run_thorough(ctx):
+    """Whole-package scope for the stack-cycle search (quick restricts it to torchsde/_brownian)."""
+    cg = ctx.callgraph()
+    cyc = cg.cycles(kinds=STACK_KINDS)
+    for comp, inner in cyc:
+        if all(f.module.name.startswith("torchsde._brownian") for f in comp):
+            continue          # already reported by R07.1
+        f = comp[0]
+        ctx.rep.fail("R07.1", astq.loc(f), f"{f.key}::R07.1::stack-cycle",
+                     f"call cycle through real stack frames outside the Brownian package: "
+                     f"{' -> '.join(x.qualname for x in comp)}")
+    ctx.rep.extra["whole_package_cycles"] = len(cyc)
+
+
 def run(ctx):
     ctx.guard(r07_1)
     ctx.guard(r07_2)
